@@ -220,7 +220,8 @@ func (g *generator) walkNumber(schema *openapi3.Schema) (ast.Type, error) {
 	case FormatDouble:
 		t = ast.NewScalar(ast.KindFloat64)
 	default:
-		t = ast.NewScalar(ast.KindFloat32)
+		// a number without a format is not limited to single precision
+		t = ast.NewScalar(ast.KindFloat64)
 	}
 	t.Scalar.Constraints = getConstraints(schema)
 	t.Nullable = schema.Nullable
